@@ -250,6 +250,45 @@ def check(F, rep, tier):
     # ---- R17.7 dependencies: the instant that is formatted is the commit time git reports, or the one given on the command line -------
     core.borrow(F, rep, "c02", "C02", "R17.7", ("argv:get_commit_timestamp#0", "argv:get_tag_timestamp#0", "tag-peel", "wiring:bumped_timestamp", "wiring:last_timestamp"), "the timestamps are the committer dates of HEAD and of the tagged commit")
     core.borrow(F, rep, "c05", "C05", "R17.7", ("override-depends-on-value:bumped_timestamp",), "--bumped-timestamp is applied whenever it is given (0 = the epoch included)")
+    core.borrow(F, rep, "c02", "C02", "R17.7", ("error-swallowed:get_commit_timestamp", "error-swallowed:get_tag_timestamp"), "a commit time git could not report is an error, not the epoch")
+    core.borrow(F, rep, "c06", "C06", "R17.7", ("R06.7:tiers-not-isomorphic", "R06.7:tier-"), "the smart calver presets pick the calver schema of the tier (calendar fields are part of every tier)")
+    # ---- R17.8 which instant: the commit time and the tag time are kept apart --------------------------------------------------------
+    def field_reads(g, op, depth=0, seen=None):
+        """names of struct fields the value of `op` is read from (through Some(..) wrappers, copies and plumbing calls)"""
+        seen = seen if seen is not None else set(); out = set()
+        if depth > 8: return out
+        for o in mir.trace_op(g, op):
+            k = (o.kind, str(o.data))
+            if k in seen: continue
+            seen.add(k)
+            out |= {x for x in o.fields()}
+            if o.kind == "agg":
+                for a in mir.rv_at(o.fn, *o.data)[2]: out |= field_reads(o.fn, a, depth + 1, seen)
+            elif o.kind == "call":
+                for a in o.fn.blocks[o.data]["t"][2]: out |= field_reads(o.fn, a, depth + 1, seen)
+        return out
+    nts = 0
+    for p_, g_ in F.fns.items():
+        if "::tests" in p_ or "test_utils" in p_ or "::_::" in p_ or g_.d.get("impl_trait") in ("std::clone::Clone", "std::default::Default"): continue
+        writes = []
+        for bi, si, st in g_.stmts():
+            if st[0] != "=": continue
+            if len(st[1]) > 1:
+                fl = [e[2] for e in st[1][1:] if not isinstance(e, str) and e[0] == "f"]
+                if fl and fl[-1] in ("bumped_timestamp", "last_timestamp") and st[2][0] == "use": writes.append((bi, fl[-1], st[2][1]))
+            if st[2][0] == "agg" and (st[2][1].get("adt") or "").endswith("vars::ZervVars"):
+                for nm, op in zip(st[2][1]["fields"], st[2][2]):
+                    if nm in ("bumped_timestamp", "last_timestamp"): writes.append((bi, nm, op))
+        for bi, nm, op in writes:
+            nts += 1
+            other = "last_timestamp" if nm == "bumped_timestamp" else "bumped_timestamp"
+            other_vcs = "tag_timestamp" if nm == "bumped_timestamp" else "commit_timestamp"
+            reads = field_reads(g_, op)
+            site = "%s bb%d line %s" % (g_.where(), bi, g_.blocks[bi]["line"])
+            if other in reads or other_vcs in reads:
+                rep.bad("R17.8", "timestamp-cross-wired:%s:%s" % (p_.rsplit("::", 1)[-1], nm), "%s writes %s from %s: the calendar fields are then those of the other instant (tag time instead of commit time, or the reverse) although the right one is known" % (p_.rsplit("::", 1)[-1], nm, sorted(reads & {other, other_vcs})), site)
+            else: rep.ok("R17.8", "%s: %s is not filled from the other instant" % (p_.rsplit("::", 1)[-1], nm), sample=site, nontrivial_key="ts%s%s%d" % (p_, nm, bi))
+    rep.floor("R17.8", "writes of bumped_timestamp / last_timestamp", nts, 6)
     return core.finish(rep, explanation=EXPL, assumptions=ASSUME, trusted=TRUST)
 
 EXPL = ("Structural clauses of C17: the accepted list is the 16 documented names; each documented pattern has its own arm in resolve_timestamp (none falls through to the literal arm) and the chrono format constant that reaches "
